@@ -3,6 +3,8 @@ import GqlgenVerif.Model.Naming
 import GqlgenVerif.Model.TypeRef
 import GqlgenVerif.Model.Flavour
 import GqlgenVerif.Model.PkgName
+import GqlgenVerif.Model.EmbedPath
+import GqlgenVerif.Model.ExecLayout
 /-! Line-protocol driver for C17: the naming model on the harness's cases. Text travels as hex of UTF-8;
 the model works on code points (the harness sends ASCII, type identifiers are returned as code points
 re-encoded to UTF-8). -/
@@ -240,8 +242,53 @@ def pkgStep : List String → Option String
     | none => some "violates:invalid-package-name"
   | _ => none
 
+/-- which schema files the executor embeds (Model/EmbedPath.lean over Gen/EmbedRule.lean) -/
+def embedStep : List String → Option String
+  -- `embed <exec dir, clean absolute, hex> <schema file, clean absolute, hex> <built-in 0|1>`
+  | ["embed", o, s, b] => do
+    let o ← cpOfHex o
+    let s ← cpOfHex s
+    let out := GqlgenVerif.EmbedPath.ofAbs o
+    let src := GqlgenVerif.EmbedPath.ofAbs s
+    let bit := fun (x : Bool) => if x then "1" else "0"
+    pure s!"rel={toHex (GqlgenVerif.EmbedPath.relText out src)} emb={bit (GqlgenVerif.EmbedPath.embeds out src (b == "1"))} below={bit (GqlgenVerif.EmbedPath.below out src)} valid={bit (GqlgenVerif.EmbedPath.validPattern (GqlgenVerif.EmbedPath.relComps out src))}"
+  -- Spec on a pattern the IMPLEMENTATION wrote after //go:embed
+  | ["chkembed", h] =>
+    match cpOfHex h with
+    | some t => some (if GqlgenVerif.EmbedPath.validPattern (GqlgenVerif.EmbedPath.splitSlash t) then "ok" else "violates:embed-pattern-leaves-the-package")
+    | none => some "violates:embed-pattern-leaves-the-package"
+  | _ => none
+
+def parseTys (s : String) : Option (List GqlgenVerif.ExecLayout.Ty) :=
+  if s == "-" then some [] else (s.splitOn ",").mapM fun x => match x.splitOn ":" with
+    | [n, b] => some ⟨n, b == "1"⟩
+    | _ => none
+
+/-- the two exec layouts (Model/ExecLayout.lean over Gen/ExecLayoutTwins.lean) -/
+def rootStep : List String → Option String
+  -- root_.gotpl against the single-file blocks of generated!.gotpl: ok | <index> @@ <token wanted> @@ <token found>
+  | ["twin"] =>
+    let want := GqlgenVerif.ExecLayout.twin GqlgenVerif.Gen.ExecLayoutTwins.singleFileBlocks GqlgenVerif.Gen.ExecLayoutTwins.builtinDirectives
+    let tok := fun (o : Option Nat) => match o with
+      | some i => GqlgenVerif.Gen.ExecLayoutTwins.tokens.getD i "?"
+      | none => "<end>"
+    let ctx := fun (l : List Nat) (i : Nat) => " ".intercalate (((l.drop (i - 6)).take 14).map fun j => GqlgenVerif.Gen.ExecLayoutTwins.tokens.getD j "?")
+    match GqlgenVerif.ExecLayout.firstDiff want GqlgenVerif.Gen.ExecLayoutTwins.followRoot 0 with
+    | none => some "ok"
+    | some (i, a, b) => some s!"{i} @@ {tok a} @@ {tok b} @@ {ctx want i} @@ {ctx GqlgenVerif.Gen.ExecLayoutTwins.followRoot i}"
+  -- `rootdecl <layout> <objects name:0|1,…|-> <inputs …>`: what ResolverRoot declares / the executor calls
+  | ["rootdecl", l, os, is] => do
+    let s : GqlgenVerif.ExecLayout.Sch := ⟨← parseTys os, ← parseTys is⟩
+    let d := GqlgenVerif.ExecLayout.declared l s
+    let c := GqlgenVerif.ExecLayout.called s
+    let j := fun (xs : List String) => if xs.isEmpty then "-" else ",".intercalate xs
+    pure s!"declared={j d} called={j c} missing={j (c.filter fun n => !d.contains n)}"
+  | _ => none
+
 def step (line : String) : String :=
   if line == "flav" then flavStep else
+  if let some r := embedStep (line.splitOn " ") then r else
+  if let some r := rootStep (line.splitOn " ") then r else
   if let some r := pkgStep (line.splitOn " ") then r else
   if let some r := typeRefStep (line.splitOn " ") then r else
   match line.splitOn " " with
